@@ -200,6 +200,11 @@ impl Store {
             .unwrap();
 
         let (broadcast_tx, _) = broadcast::channel(1024);
+        #[cfg(xs_verif)]
+        let (broadcast_tx, _) = {
+            let _: &broadcast::Sender<Frame> = &broadcast_tx;
+            broadcast::channel(crate::verif::broadcast_cap(1024))
+        };
         let (gc_tx, gc_rx) = mpsc::unbounded_channel();
 
         let mut contexts = HashSet::new();
@@ -238,6 +243,13 @@ impl Store {
     #[tracing::instrument(skip(self))]
     pub async fn read(&self, options: ReadOptions) -> tokio::sync::mpsc::Receiver<Frame> {
         let (tx, rx) = tokio::sync::mpsc::channel(100);
+        #[cfg(xs_verif)]
+        let (tx, rx) = {
+            let _: (&mpsc::Sender<Frame>, &mpsc::Receiver<Frame>) = (&tx, &rx);
+            tokio::sync::mpsc::channel(crate::verif::delivery_cap(100))
+        };
+        #[cfg(xs_verif)]
+        let vreader = crate::verif::next_reader();
 
         let should_follow = matches!(
             options.follow,
@@ -253,6 +265,13 @@ impl Store {
             None
         };
 
+        #[cfg(xs_verif)]
+        crate::verif::emit(
+            vreader.as_deref(),
+            "read.subscribed",
+            crate::verif::read_args(&options, should_follow),
+        );
+
         // Only create done channel if we're doing historical processing
         let done_rx = if !options.tail {
             let (done_tx, done_rx) = tokio::sync::oneshot::channel();
@@ -261,16 +280,34 @@ impl Store {
             let options = options.clone();
             let should_follow_clone = should_follow;
             let gc_tx = self.gc_tx.clone();
+            #[cfg(xs_verif)]
+            let vhist = vreader.as_ref().map(|r| format!("{r}.hist"));
 
             // Spawn OS thread to handle historical events
             std::thread::spawn(move || {
                 let mut last_id = None;
                 let mut count = 0;
+                #[cfg(xs_verif)]
+                let vhist = vhist.as_deref();
+                #[cfg(xs_verif)]
+                crate::verif::point(vhist, "hist.start", serde_json::json!({}));
 
                 for frame in store.iter_frames(options.context_id, options.last_id.as_ref()) {
+                    #[cfg(xs_verif)]
+                    crate::verif::point(
+                        vhist,
+                        "hist.got",
+                        serde_json::json!({"id": frame.id.to_string()}),
+                    );
                     if let Some(TTL::Time(ttl)) = frame.ttl.as_ref() {
                         if is_expired(&frame.id, ttl) {
                             let _ = gc_tx.send(GCTask::Remove(frame.id));
+                            #[cfg(xs_verif)]
+                            crate::verif::emit(
+                                vhist,
+                                "hist.expired",
+                                serde_json::json!({"id": frame.id.to_string()}),
+                            );
                             continue;
                         }
                     }
@@ -279,15 +316,37 @@ impl Store {
 
                     if let Some(limit) = options.limit {
                         if count >= limit {
+                            #[cfg(xs_verif)]
+                            {
+                                crate::verif::emit(vhist, "hist.limit", serde_json::json!({}));
+                                crate::verif::finish(vhist);
+                            }
                             return; // Exit early if limit reached
                         }
                     }
 
+                    #[cfg(xs_verif)]
+                    let vid = frame.id.to_string();
+                    #[cfg(xs_verif)]
+                    crate::verif::waiting(vhist, "send");
                     if tx_clone.blocking_send(frame).is_err() {
+                        #[cfg(xs_verif)]
+                        {
+                            crate::verif::emit(vhist, "hist.closed", serde_json::json!({}));
+                            crate::verif::finish(vhist);
+                        }
                         return;
                     }
                     count += 1;
+                    #[cfg(xs_verif)]
+                    {
+                        crate::verif::resumed(vhist);
+                        crate::verif::emit(vhist, "hist.sent", serde_json::json!({"id": vid}));
+                    }
                 }
+
+                #[cfg(xs_verif)]
+                crate::verif::point(vhist, "hist.end", serde_json::json!({}));
 
                 // Send threshold message if following and no limit
                 if should_follow_clone && options.limit.is_none() {
@@ -296,13 +355,34 @@ impl Store {
                             .id(scru128::new())
                             .ttl(TTL::Ephemeral)
                             .build();
+                    #[cfg(xs_verif)]
+                    crate::verif::waiting(vhist, "send");
                     if tx_clone.blocking_send(threshold).is_err() {
+                        #[cfg(xs_verif)]
+                        {
+                            crate::verif::emit(vhist, "hist.closed", serde_json::json!({}));
+                            crate::verif::finish(vhist);
+                        }
                         return;
+                    }
+                    #[cfg(xs_verif)]
+                    {
+                        crate::verif::resumed(vhist);
+                        crate::verif::point(vhist, "hist.threshold", serde_json::json!({}));
                     }
                 }
 
                 // Signal completion with the last seen ID and count
                 let _ = done_tx.send((last_id, count));
+                #[cfg(xs_verif)]
+                {
+                    crate::verif::emit(
+                        vhist,
+                        "hist.done",
+                        serde_json::json!({"last": last_id.map(|i| i.to_string()), "count": count}),
+                    );
+                    crate::verif::finish(vhist);
+                }
             });
 
             Some(done_rx)
@@ -315,22 +395,71 @@ impl Store {
             {
                 let tx = tx.clone();
                 let limit = options.limit;
+                #[cfg(xs_verif)]
+                let vlive = vreader.as_ref().map(|r| format!("{r}.live"));
 
                 tokio::spawn(async move {
                     // If we have a done_rx, wait for historical processing
+                    #[cfg(xs_verif)]
+                    let vlive = vlive.as_deref();
+                    #[cfg(xs_verif)]
+                    {
+                        crate::verif::point(vlive, "live.start", serde_json::json!({}));
+                        crate::verif::waiting(vlive, "done");
+                    }
                     let (last_id, mut count) = match done_rx {
                         Some(done_rx) => match done_rx.await {
                             Ok((id, count)) => (id, count),
+                            #[cfg(xs_verif)]
+                            Err(_)
+                                if {
+                                    crate::verif::emit(
+                                        vlive,
+                                        "live.exit",
+                                        serde_json::json!({"why": "nodone"}),
+                                    );
+                                    crate::verif::finish(vlive);
+                                    false
+                                } =>
+                            {
+                                unreachable!()
+                            }
                             Err(_) => return, // Historical processing failed/cancelled
                         },
                         None => (None, 0),
                     };
+                    #[cfg(xs_verif)]
+                    {
+                        crate::verif::resumed(vlive);
+                        crate::verif::point(
+                            vlive,
+                            "live.ready",
+                            serde_json::json!({"last": last_id.map(|i: Scru128Id| i.to_string()), "count": count}),
+                        );
+                        crate::verif::waiting(vlive, "recv");
+                    }
 
                     let mut broadcast_rx = broadcast_rx;
                     while let Ok(frame) = broadcast_rx.recv().await {
+                        #[cfg(xs_verif)]
+                        let vid = frame.id.to_string();
+                        #[cfg(xs_verif)]
+                        {
+                            crate::verif::resumed(vlive);
+                            crate::verif::point(vlive, "live.recv", serde_json::json!({"id": vid}));
+                        }
                         // Skip frames that do not match the context_id
                         if let Some(context_id) = options.context_id {
                             if frame.context_id != context_id {
+                                #[cfg(xs_verif)]
+                                {
+                                    crate::verif::emit(
+                                        vlive,
+                                        "live.drop_ctx",
+                                        serde_json::json!({"id": vid}),
+                                    );
+                                    crate::verif::waiting(vlive, "recv");
+                                }
                                 continue;
                             }
                         }
@@ -338,20 +467,43 @@ impl Store {
                         // Skip if we've already seen this frame during historical scan
                         if let Some(last_scanned_id) = last_id {
                             if frame.id <= last_scanned_id {
+                                #[cfg(xs_verif)]
+                                {
+                                    crate::verif::emit(
+                                        vlive,
+                                        "live.drop_dup",
+                                        serde_json::json!({"id": vid}),
+                                    );
+                                    crate::verif::waiting(vlive, "recv");
+                                }
                                 continue;
                             }
                         }
 
+                        #[cfg(xs_verif)]
+                        crate::verif::waiting(vlive, "send");
                         if tx.send(frame).await.is_err() {
                             break;
                         }
 
+                        #[cfg(xs_verif)]
+                        {
+                            crate::verif::resumed(vlive);
+                            crate::verif::emit(vlive, "live.sent", serde_json::json!({"id": vid}));
+                        }
                         if let Some(limit) = limit {
                             count += 1;
                             if count >= limit {
                                 break;
                             }
                         }
+                        #[cfg(xs_verif)]
+                        crate::verif::waiting(vlive, "recv");
+                    }
+                    #[cfg(xs_verif)]
+                    {
+                        crate::verif::emit(vlive, "live.exit", serde_json::json!({}));
+                        crate::verif::finish(vlive);
                     }
                 });
             }
@@ -359,17 +511,32 @@ impl Store {
             // Handle heartbeat if requested
             if let FollowOption::WithHeartbeat(duration) = options.follow {
                 let heartbeat_tx = tx;
+                #[cfg(xs_verif)]
+                let vhb = vreader.as_ref().map(|r| format!("{r}.hb"));
                 tokio::spawn(async move {
                     loop {
                         tokio::time::sleep(duration).await;
+                        #[cfg(xs_verif)]
+                        crate::verif::point(vhb.as_deref(), "hb.tick", serde_json::json!({}));
                         let frame =
                             Frame::builder("xs.pulse", options.context_id.unwrap_or(ZERO_CONTEXT))
                                 .id(scru128::new())
                                 .ttl(TTL::Ephemeral)
                                 .build();
                         if heartbeat_tx.send(frame).await.is_err() {
+                            #[cfg(xs_verif)]
+                            {
+                                crate::verif::emit(
+                                    vhb.as_deref(),
+                                    "hb.closed",
+                                    serde_json::json!({}),
+                                );
+                                crate::verif::finish(vhb.as_deref());
+                            }
                             break;
                         }
+                        #[cfg(xs_verif)]
+                        crate::verif::emit(vhb.as_deref(), "hb.sent", serde_json::json!({}));
                     }
                 });
             }
@@ -490,10 +657,23 @@ impl Store {
 
     pub fn append(&self, mut frame: Frame) -> Result<Frame, crate::error::Error> {
         frame.id = scru128::new();
+        #[cfg(xs_verif)]
+        let vactor = crate::verif::actor();
+        #[cfg(xs_verif)]
+        let vactor = vactor.as_deref();
+        #[cfg(xs_verif)]
+        {
+            if let Some(id) = crate::verif::next_id() {
+                frame.id = id;
+            }
+            crate::verif::point(vactor, "append.id", crate::verif::frame_args(&frame));
+        }
 
         // Special handling for xs.context registration
         if frame.topic == "xs.context" {
             if frame.context_id != ZERO_CONTEXT {
+                #[cfg(xs_verif)]
+                crate::verif::emit(vactor, "append.err", crate::verif::frame_args(&frame));
                 return Err("xs.context frames must be in zero context".into());
             }
             frame.ttl = Some(TTL::Forever);
@@ -502,6 +682,8 @@ impl Store {
             // Validate context exists
             let contexts = self.contexts.read().unwrap();
             if !contexts.contains(&frame.context_id) {
+                #[cfg(xs_verif)]
+                crate::verif::emit(vactor, "append.err", crate::verif::frame_args(&frame));
                 return Err(format!("Invalid context: {}", frame.context_id).into());
             }
         }
@@ -512,6 +694,12 @@ impl Store {
         // only store the frame if it's not ephemeral
         if frame.ttl != Some(TTL::Ephemeral) {
             self.insert_frame(&frame)?;
+            #[cfg(xs_verif)]
+            crate::verif::point(
+                vactor,
+                "append.committed",
+                serde_json::json!({"id": frame.id.to_string()}),
+            );
 
             // If this is a Head TTL, schedule a gc task
             if let Some(TTL::Head(n)) = frame.ttl {
@@ -524,6 +712,12 @@ impl Store {
         }
 
         let _ = self.broadcast_tx.send(frame.clone());
+        #[cfg(xs_verif)]
+        crate::verif::point(
+            vactor,
+            "append.broadcast",
+            serde_json::json!({"id": frame.id.to_string()}),
+        );
         Ok(frame)
     }
 
@@ -576,6 +770,8 @@ impl Store {
 fn spawn_gc_worker(mut gc_rx: UnboundedReceiver<GCTask>, store: Store) {
     std::thread::spawn(move || {
         while let Some(task) = gc_rx.blocking_recv() {
+            #[cfg(xs_verif)]
+            crate::verif::point(Some("gc"), "gc.task", task.verif_args());
             match task {
                 GCTask::Remove(id) => {
                     let _ = store.remove(&id);
@@ -606,6 +802,8 @@ fn spawn_gc_worker(mut gc_rx: UnboundedReceiver<GCTask>, store: Store) {
                     let _ = tx.send(());
                 }
             }
+            #[cfg(xs_verif)]
+            crate::verif::emit(Some("gc"), "gc.done", serde_json::json!({}));
         }
     });
 }
@@ -617,6 +815,8 @@ fn is_expired(id: &Scru128Id, ttl: &Duration) -> bool {
         .duration_since(std::time::UNIX_EPOCH)
         .unwrap()
         .as_millis() as u64;
+    #[cfg(xs_verif)]
+    let now_ms = crate::verif::now_ms().unwrap_or(now_ms);
 
     now_ms >= expires_ms
 }
@@ -674,4 +874,59 @@ fn deserialize_frame<B1: AsRef<[u8]>, B2: AsRef<[u8]>>(record: (B1, B2)) -> Fram
         let value = std::str::from_utf8(record.1.as_ref()).unwrap();
         panic!("Failed to deserialize frame: {} {} {}", e, key, value)
     })
+}
+
+#[cfg(xs_verif)]
+impl Store {
+    /// raw view of the three partitions and the context registry
+    pub fn verif_dump(&self) -> serde_json::Value {
+        fn hex(b: &[u8]) -> String {
+            b.iter().map(|x| format!("{x:02x}")).collect()
+        }
+        let stream: Vec<_> = self
+            .frame_partition
+            .iter()
+            .map(|r| {
+                let (k, v) = r.unwrap();
+                serde_json::json!([hex(&k), String::from_utf8_lossy(&v)])
+            })
+            .collect();
+        let idx_topic: Vec<_> = self.idx_topic.iter().map(|r| hex(&r.unwrap().0)).collect();
+        let idx_context: Vec<_> = self
+            .idx_context
+            .iter()
+            .map(|r| hex(&r.unwrap().0))
+            .collect();
+        let mut contexts: Vec<_> = self
+            .contexts
+            .read()
+            .unwrap()
+            .iter()
+            .map(|c| c.to_string())
+            .collect();
+        contexts.sort();
+        serde_json::json!({
+            "stream": stream,
+            "idx_topic": idx_topic,
+            "idx_context": idx_context,
+            "contexts": contexts,
+        })
+    }
+}
+
+#[cfg(xs_verif)]
+impl GCTask {
+    fn verif_args(&self) -> serde_json::Value {
+        match self {
+            GCTask::Remove(id) => serde_json::json!({"kind": "remove", "id": id.to_string()}),
+            GCTask::CheckHeadTTL {
+                context_id,
+                topic,
+                keep,
+            } => serde_json::json!({
+                "kind": "check_head", "ctx": context_id.to_string(), "topic": topic, "keep": keep
+            }),
+            GCTask::Drain(_) => serde_json::json!({"kind": "drain"}),
+        }
+    }
 }
